@@ -40,6 +40,16 @@ def exc_sig(e):
     return "%s: %s" % (type(e).__name__, str(e)[:200])
 
 
+def msgclass(e):
+    """message with positions, numbers and quoted identifiers abstracted (for violation class keys)"""
+    m = str(e.args[0]) if getattr(e, "args", None) else str(e)
+    m = re.sub(r"Blackbird SyntaxError \(line \d+:\d+\): ", "", m)
+    m = re.sub(r"'[^']*'", "'_'", m)
+    m = re.sub(r"\{[^}]*\}", "{_}", m)
+    m = re.sub(r"[-+]?\d[\d.e+-]*j?", "N", m)
+    return m[:50]
+
+
 def is_bbsyntax(e):
     return type(e).__name__ == "BlackbirdSyntaxError"
 
